@@ -280,6 +280,7 @@ class Interp:
         self.K_ret = 3
         self.unroll_max_blocks = 14
         self.no_join_bodies = set()
+        self.no_join_prefixes = ()
         self.max_depth = max_depth
         self.infos = {}
         self.nsym = 0
@@ -301,6 +302,7 @@ class Interp:
         self.assume_no_overflow_checks = False
         self.extra_models = {}
         self.addr_syms = {}
+        self.pure_syms = {}
         self.discr_syms = {}
         self.type_invariants = {}
         self.str_boundaries = {}
@@ -381,6 +383,26 @@ class Interp:
         if info is not None:
             self.syminfo[name] = info
         return name
+
+    def pure_int(self, st, key, hint, ty, lo=None, hi=None, info=None):
+        """symbol for the result of a pure operation on the given operands:
+        the same operands give the same symbol (value numbering)"""
+        name = self.pure_syms.get(key)
+        tlo, thi = int_range(ty) if ty else (-INF, INF)
+        lo = tlo if lo is None or lo < tlo else lo
+        hi = thi if hi is None or hi > thi else hi
+        if name is None:
+            self.nsym += 1
+            name = "%s#%d" % (hint, self.nsym)
+            self.pure_syms[key] = name
+            if info is not None:
+                self.syminfo[name] = info
+        old = st.bounds.get(name)
+        if old is None:
+            st.bounds[name] = (lo, hi)
+        else:
+            st.bounds[name] = (max(old[0], lo), min(old[1], hi))
+        return IntV(Aff.sym(name), ty)
 
     def fresh_int(self, st, hint, ty, lo=None, hi=None, info=None, bits=None):
         tlo, thi = int_range(ty) if ty else (-INF, INF)
@@ -830,8 +852,8 @@ class Interp:
                     al, ah = st.range(a.aff)
                     bl, bh = st.range(b.aff)
                     cands = [al * bl, al * bh, ah * bl, ah * bh] if max(abs(al), abs(ah), abs(bl), abs(bh)) < INF else [-INF, INF]
-                    s = self.fresh(st, "mul", min(cands), max(cands), ("mul", a.aff, b.aff))
-                    e = Aff.sym(s)
+                    x, y = (a.aff, b.aff) if repr(a.aff) <= repr(b.aff) else (b.aff, a.aff)
+                    e = self.pure_int(st, ("mul", x, y), "mul", None, min(cands), max(cands), ("mul", a.aff, b.aff)).aff
             if op.endswith("WithOverflow"):
                 flag = IntV(Aff.sym(self.fresh(st, "ovf", 0, 1)), (1, False), cond=("ovf", e, lo, hi))
                 return StructV([IntV(e, it), flag])
@@ -947,7 +969,7 @@ class Interp:
             bl, bh = st.range(b.aff)
             if base == "Shl" and a.aff.is_const() and bl >= 0 and bh < w:
                 c = a.aff.c
-                r = self.fresh_int(st, "shl", it, c << bl, min(c << bh, hi))
+                r = self.pure_int(st, ("shl", c, b.aff, it), "shl", it, c << bl, min(c << bh, hi))
                 r.origin = ("shl", c, b.aff)
                 return r
             if base == "Shr" and al >= 0:
@@ -1449,7 +1471,8 @@ class Interp:
             for s2, rv in outs:
                 for key in [k for k in s2.cells if k[0] == fid]:
                     del s2.cells[key]
-        if len(outs) > self.K_ret and body["id"] not in self.no_join_bodies:
+        if len(outs) > self.K_ret and body["id"] not in self.no_join_bodies \
+                and not any(body["path"].startswith(p) for p in self.no_join_prefixes):
             outs = self.join_returns(outs, fid)
         return outs
 
